@@ -532,6 +532,7 @@ def run(ctx):
                    "surviving neighbours, exactly (Fractions), strict '<' against tol^2",
                    "exact ties (distance == tolerance) are skipped in the predicate comparison"]
     coverage["rule"] += ("; one window of c-1..c+2 and 2c+1 vertices for every constant c in 3001..100000 of plot_utils' source (overshoot, back-track, bulge, zigzag; integer coordinates) handed to the predicate, and a doubling-back dense stroke of c+60 vertices through supersample")
+    coverage["rule"] += ('; 1824 lists with a vertex at distance exactly the tolerance from whole-number chords of length 1..30 (axis-parallel, 3:4, 5:12 directions)')
     return {"part": part, "coverage": coverage, "assumptions": assumptions}
 
 
